@@ -954,6 +954,24 @@ func oracleTokenMapItems(c *caseCtx, q core.Query, r core.Result) {
 				if kv, _ := it.KeyExpr.Value(nil); kv.IsKnown() && (kv.IsNull() || kv.Type() != cty.String) {
 					continue
 				}
+				// (nor is an item whose key is written in neither of the two forms a key has - a
+				// bare or quoted name, or a parenthesised expression: a call or a dotted
+				// traversal in key position, as single-token edits of a valid file produce them)
+				if ke, ok := it.KeyExpr.(*hclsyntax.ObjectConsKeyExpr); ok {
+					switch w := ke.Wrapped.(type) {
+					case *hclsyntax.ScopeTraversalExpr:
+						if len(w.Traversal) != 1 {
+							continue
+						}
+					case *hclsyntax.TemplateExpr:
+						if !w.IsStringLiteral() {
+							continue
+						}
+					case *hclsyntax.ParenthesesExpr, *hclsyntax.LiteralValueExpr:
+					default:
+						continue
+					}
+				}
 				var tt lang.SemanticTokenType
 				switch e := it.ValueExpr.(type) {
 				case *hclsyntax.LiteralValueExpr:
